@@ -490,6 +490,8 @@ def _dur_parse(a, pre):
 @op("iv_parse")
 def _iv_parse(a, pre):
     text = proj.uncps(a["t1"]) + "/" + proj.uncps(a["t2"])
+    if a.get("tz"):
+        return P().parse(text, tz=tzarg(a))        # end-points written without an offset are wall times of this zone
     return P().parse(text)
 
 
